@@ -284,7 +284,7 @@ class StructObj:
             data = a[0]
             if hasattr(data, "unpack"):
                 return data.unpack(fmt)
-            if isinstance(data, (bytes, bytearray)):
+            if isinstance(data, (bytes, bytearray, memoryview)):
                 try:
                     return _struct.unpack(fmt, data)
                 except _struct.error as e:
@@ -297,7 +297,7 @@ class StructObj:
             size = _struct.calcsize(fmt)
             if not isinstance(off, int):
                 raise Undecided("Struct.unpack_from at a symbolic offset")
-            if isinstance(data, (bytes, bytearray)):
+            if isinstance(data, (bytes, bytearray, memoryview)):
                 try:
                     return _struct.unpack_from(fmt, data, off)
                 except _struct.error as e:
